@@ -246,7 +246,7 @@ impl Subject for C02 {
         for dt in &self.dts {
             v.push(Op::Write { kind: Kind::Pass, count: 1, dt: *dt });
         }
-        for (k, c) in [(Kind::Pass, 3), (Kind::Block, 1), (Kind::Complete, 1), (Kind::Complete, 3), (Kind::Error, 1), (Kind::Rt, 1), (Kind::Rt, 3), (Kind::Rt, 70000)] {
+        for (k, c) in [(Kind::Pass, 3), (Kind::Block, 1), (Kind::Complete, 1), (Kind::Complete, 3), (Kind::Error, 1), (Kind::Rt, 1), (Kind::Rt, 3), (Kind::Rt, 70000), (Kind::Rt, 0), (Kind::Pass, 0)] {
             v.push(Op::Write { kind: k, count: c, dt: 0 });
         }
         v
